@@ -1090,6 +1090,10 @@ class Interp:
                 r = base.getattr_hook(self, base, name, node, fi)
                 if r is not NotImplemented:
                     return r
+            store = self.dict_store(base)
+            if store is not None and name in ("get", "keys", "values", "items", "pop", "setdefault", "copy"):
+                # a method the object inherits from the builtin dict and does not override: that of its backing store
+                return _PyMethod(store, name)
             if default is not NotImplemented:
                 return default
             raise SimRaise("AttributeError", f"{base!r} has no attribute {name}", node, fi)
